@@ -40,6 +40,7 @@ class Cfg:
 
 LEAF_KINDS = [
     ("Literal", 6), ("Word", 6), ("WordIB", 2), ("WordMax", 2), ("WordExact", 1), ("WordMin", 1), ("WordSlow", 2),
+    ("WordSlowMax", 1),
     ("Keyword", 2), ("CaselessLiteral", 1), ("CaselessKeyword", 1), ("CharsNotIn", 2), ("Char", 1), ("Empty", 1),
     ("NoMatch", 1), ("StringStart", 1), ("StringEnd", 2), ("LineStart", 1), ("LineEnd", 2), ("WordStart", 1),
     ("WordEnd", 1), ("WordKw", 1),
@@ -103,6 +104,11 @@ class ProgGen:
         if k == "WordSlow":
             # a blank in the character set forces the character-loop path (no max: see C17 finding)
             return self.add([v, "Word", "ab ", {"min": r.choice([1, 2])}], Info(False, shape=("word", "ab", "ab ", 1, 0)))
+        if k == "WordSlowMax":
+            # character-loop path WITH max: strict (raises when a further body character follows) - the model
+            # transcribes that; only the PEG reference interpreter / C17 stay out of this region
+            mx = r.choice([2, 3, 5])
+            return self.add([v, "Word", "ab", {"body": "ab ", "max": mx}], Info(False, shape=("word", "ab", "ab", 1, mx)))
         if k == "WordKw":
             return self.add([v, "Word", "ab", {"as_keyword": True}], Info(False, shape=("word", "ab", "ab", 1, 0)))
         if k == "Keyword":
@@ -279,6 +285,13 @@ class ProgGen:
                 self.add(["_", "call_during_try", v], None)
         if r.random() < c.set_name:
             self.add(["_", "set_name", v, "N" + v], None)
+        if r.random() < c.names:
+            # results names, drawn from a small pool so that the same name is used on several elements, both as
+            # "last match" and as list-all ("name*")
+            w = self.fresh()
+            self.add([w, "name", v, r.choice(["x", "y", "x*", "y*", "item", "item*", "x"])],
+                     Info(I[v].nullable, I[v].left, I[v].shape))
+            v = w
         if r.random() < c.ws_variants:
             w = self.fresh()
             if r.random() < 0.6:
